@@ -360,4 +360,165 @@ pub proof fn lemma_udp_example()
     assert(w_udp(b, false) == Ok::<int, WFault>(9));
 }
 
+
+// ---- mask-style IPv4 (experiment B) -----------------------------------------------------------------
+pub open spec fn v4_ihl(b: Seq<u8>) -> u8 { b[0] & 0x0f }
+pub open spec fn v4_version(b: Seq<u8>) -> u8 { b[0] >> 4 }
+pub open spec fn v4_total_len(b: Seq<u8>) -> int { be16(b, 2) }
+pub open spec fn v4_frag(b: Seq<u8>) -> bool { b[6] & 0x20 != 0 || (((b[6] & 0x1f) as int) * 256 + b[7] as int) != 0 }
+
+pub open spec fn w4_header(b: Seq<u8>) -> Result<int, WFault> {
+    if b.len() < 20 { Err(too_short(b, 20, Layer::Ipv4Header)) }
+    else if v4_version(b) != 4 { Err(WFault::Content(WContent::Ipv4UnexpectedVersion { version_number: v4_version(b) })) }
+    else if v4_ihl(b) < 5 { Err(WFault::Content(WContent::Ipv4IhlTooSmall { ihl: v4_ihl(b) })) }
+    else if b.len() < (v4_ihl(b) as int) * 4 { Err(too_short(b, (v4_ihl(b) as int) * 4, Layer::Ipv4Header)) }
+    else { Ok((v4_ihl(b) as int) * 4) }
+}
+
+/// strict IPv4 boundary (header, optional AH, payload range)
+pub open spec fn w4_strict(b: Seq<u8>) -> Result<WIp, WFault> {
+    match w4_header(b) {
+        Err(f) => Err(f),
+        Ok(h) => {
+            let tl = v4_total_len(b);
+            if tl < h { Err(WFault::Len(WErr { required_len: h, len: tl, len_source: LenSource::Ipv4HeaderTotalLen, layer: Layer::Ipv4Packet, offset: 0 })) }
+            else if b.len() < tl { Err(WFault::Len(WErr { required_len: tl, len: b.len() as int, len_source: LenSource::Slice, layer: Layer::Ipv4Packet, offset: 0 })) }
+            else if b[9] != 51 {
+                Ok(WIp { version: 4, header_len: h, exts_len: 0, payload_start: h, payload_end: tl, ip_number: b[9] as int, fragmented: v4_frag(b), len_source: LenSource::Ipv4HeaderTotalLen, incomplete: false, stop: None })
+            } else {
+                let rest = b.subrange(h, tl);
+                match w_ext_header(IPN_AUTH, rest) {
+                    Ok(a) => Ok(WIp { version: 4, header_len: h, exts_len: a, payload_start: h + a, payload_end: tl, ip_number: rest[0] as int, fragmented: v4_frag(b), len_source: LenSource::Ipv4HeaderTotalLen, incomplete: false, stop: None }),
+                    Err(WFault::Len(e)) => Err(WFault::Len(WErr { len_source: LenSource::Ipv4HeaderTotalLen, offset: e.offset + h, ..e })),
+                    Err(c) => Err(c),
+                }
+            }
+        }
+    }
+}
+
+/// C07: layer, offset, len, required_len exactly; the length source may always be reported as `Slice`
+/// (the property only forbids naming a field that did not limit the data), otherwise it must be the real one
+pub open spec fn same_len_err(e: crate::err::LenError, w: WErr) -> bool {
+    e.required_len == w.required_len && e.len == w.len && e.layer == w.layer && e.layer_start_offset == w.offset
+    && (e.len_source == w.len_source || e.len_source == LenSource::Slice)
+    && (if w.required_len > w.len { e.required_len > e.len } else { e.required_len < e.len })
+}
+
+/// lax IPv4 boundary: never fails behind a decodable header; `incomplete` <=> total_len promised more than the slice holds
+pub open spec fn w4_lax(b: Seq<u8>) -> Result<WIp, WFault> {
+    match w4_header(b) {
+        Err(f) => Err(f),
+        Ok(h) => {
+            let tl = v4_total_len(b);
+            let bad_tl = tl < h;
+            let cut = !bad_tl && tl > b.len();
+            let end = if bad_tl || cut { b.len() as int } else { tl };
+            let src = if bad_tl || cut { LenSource::Slice } else { LenSource::Ipv4HeaderTotalLen };
+            if b[9] != 51 {
+                Ok(WIp { version: 4, header_len: h, exts_len: 0, payload_start: h, payload_end: end, ip_number: b[9] as int, fragmented: v4_frag(b), len_source: src, incomplete: cut, stop: None })
+            } else {
+                let rest = b.subrange(h, end);
+                match w_ext_header(IPN_AUTH, rest) {
+                    Ok(a) => Ok(WIp { version: 4, header_len: h, exts_len: a, payload_start: h + a, payload_end: end, ip_number: rest[0] as int, fragmented: v4_frag(b), len_source: src, incomplete: cut, stop: None }),
+                    Err(WFault::Len(e)) => Ok(WIp { version: 4, header_len: h, exts_len: 0, payload_start: h, payload_end: end, ip_number: 51, fragmented: v4_frag(b), len_source: src, incomplete: cut,
+                                                    stop: Some(WFault::Len(WErr { len_source: src, offset: e.offset + h, ..e })) }),
+                    Err(c) => Ok(WIp { version: 4, header_len: h, exts_len: 0, payload_start: h, payload_end: end, ip_number: 51, fragmented: v4_frag(b), len_source: src, incomplete: cut, stop: Some(c) }),
+                }
+            }
+        }
+    }
+}
+
+// ------------------------------------------------------------------------------------------------
+// whole packet (strict): the layer sequence of C03.  Offsets are absolute (relative to the buffer the caller passed).
+// ------------------------------------------------------------------------------------------------
+pub ghost enum WLinkExt { Vlan { at: int }, Macsec { at: int, header_len: int } }
+pub ghost enum WNet { None, Arp { at: int, len: int }, Ip { at: int, ip: WIp } }
+pub ghost enum WTransport { None, Udp { at: int, end: int }, Tcp { at: int, header_len: int, end: int }, Icmp4 { at: int, header_len: int, end: int }, Icmp6 { at: int, end: int } }
+pub ghost struct WPacket {
+    pub exts: Seq<WLinkExt>,          // at most 3
+    pub net: WNet,
+    pub transport: WTransport,
+    pub fault: Option<WFault>,        // strict: Some => the whole parse is Err(fault) (offset absolute)
+}
+
+pub open spec fn fault_at(f: WFault, at: int, outer: LenSource) -> WFault {
+    match f {
+        // a layer that saw the slice as its limit inherits the source that trimmed the slice in front of it
+        WFault::Len(e) => WFault::Len(WErr { offset: e.offset + at, len_source: if e.len_source == LenSource::Slice { outer } else { e.len_source }, ..e }),
+        c => c,
+    }
+}
+
+/// transport layer behind an IP payload [at, end) of `b`
+pub open spec fn wp_transport(b: Seq<u8>, at: int, end: int, ip_number: int, fragmented: bool, src: LenSource) -> (WTransport, Option<WFault>) {
+    let p = b.subrange(at, end);
+    if fragmented { (WTransport::None, None) }
+    else if ip_number == 17 { match w_udp(p, false) { Ok(e) => (WTransport::Udp { at, end: at + e }, None), Err(f) => (WTransport::None, Some(fault_at(f, at, src))) } }
+    else if ip_number == 6 { match w_tcp(p) { Ok(h) => (WTransport::Tcp { at, header_len: h, end }, None), Err(f) => (WTransport::None, Some(fault_at(f, at, src))) } }
+    else if ip_number == 1 { match w_icmp4(p) { Ok(h) => (WTransport::Icmp4 { at, header_len: h, end }, None), Err(f) => (WTransport::None, Some(fault_at(f, at, src))) } }
+    else if ip_number == 58 { match w_icmp6(p) { Ok(_) => (WTransport::Icmp6 { at, end }, None), Err(f) => (WTransport::None, Some(fault_at(f, at, src))) } }
+    else { (WTransport::None, None) }
+}
+
+/// network + transport behind an ether type; the data available is b[at..end), trimmed by `src`
+pub open spec fn wp_net(b: Seq<u8>, ether_type: int, at: int, end: int, src: LenSource) -> (WNet, WTransport, Option<WFault>) {
+    let p = b.subrange(at, end);
+    if ether_type == ET_ARP {
+        match w_arp(p) { Ok(l) => (WNet::Arp { at, len: l }, WTransport::None, None), Err(f) => (WNet::None, WTransport::None, Some(fault_at(f, at, src))) }
+    } else if ether_type == ET_IPV4 || ether_type == ET_IPV6 {
+        let r = if ether_type == ET_IPV4 { w_ipv4(p, false) } else { w_ipv6(p, false) };
+        match r {
+            Err(f) => (WNet::None, WTransport::None, Some(fault_at(f, at, src))),
+            Ok(ip) => {
+                let inner = if ip.len_source == LenSource::Slice { src } else { ip.len_source };
+                let (t, f) = wp_transport(b, at + ip.payload_start, at + ip.payload_end, ip.ip_number, ip.fragmented, inner);
+                (WNet::Ip { at, ip }, t, f)
+            }
+        }
+    } else { (WNet::None, WTransport::None, None) }
+}
+
+/// link extensions (VLAN / MACsec, at most 3) then the network layer
+pub open spec fn wp_ether(b: Seq<u8>, ether_type: int, at: int, end: int, src: LenSource, exts: Seq<WLinkExt>) -> WPacket
+    decreases 3 - exts.len()
+{
+    let p = b.subrange(at, end);
+    if exts.len() >= 3 && (is_vlan_ether_type(ether_type) || ether_type == ET_MACSEC) {
+        WPacket { exts, net: WNet::None, transport: WTransport::None, fault: None }
+    } else if is_vlan_ether_type(ether_type) {
+        match w_vlan(p) {
+            Err(f) => WPacket { exts, net: WNet::None, transport: WTransport::None, fault: Some(fault_at(f, at, src)) },
+            Ok((et, h)) => wp_ether(b, et, at + h, end, src, exts.push(WLinkExt::Vlan { at })),
+        }
+    } else if ether_type == ET_MACSEC {
+        match w_macsec(p, false) {
+            Err(f) => WPacket { exts, net: WNet::None, transport: WTransport::None, fault: Some(fault_at(f, at, src)) },
+            Ok(m) => {
+                let e2 = exts.push(WLinkExt::Macsec { at, header_len: m.header_len });
+                if !m.unmodified { WPacket { exts: e2, net: WNet::None, transport: WTransport::None, fault: None } }
+                else { wp_ether(b, m.next_ether_type, at + m.payload_start, at + m.payload_end, if m.len_source == LenSource::Slice { src } else { m.len_source }, e2) }
+            }
+        }
+    } else {
+        let (n, t, f) = wp_net(b, ether_type, at, end, src);
+        WPacket { exts, net: n, transport: t, fault: f }
+    }
+}
+
+pub open spec fn wp_from_ether_type(b: Seq<u8>, ether_type: int) -> WPacket { wp_ether(b, ether_type, 0, b.len() as int, LenSource::Slice, Seq::empty()) }
+pub open spec fn wp_from_ethernet(b: Seq<u8>) -> WPacket {
+    match w_eth2(b) {
+        Err(f) => WPacket { exts: Seq::empty(), net: WNet::None, transport: WTransport::None, fault: Some(f) },
+        Ok((et, h)) => wp_ether(b, et, h, b.len() as int, LenSource::Slice, Seq::empty()),
+    }
+}
+/// C06: starting at the Ethernet header == starting at its ether type on the bytes behind it, offsets shifted by 14 — by definition
+pub open spec fn wp_from_ip(b: Seq<u8>) -> (WNet, WTransport, Option<WFault>) {
+    match w_ip(b, false) {
+        Err(f) => (WNet::None, WTransport::None, Some(f)),
+        Ok(ip) => { let (t, f) = wp_transport(b, ip.payload_start, ip.payload_end, ip.ip_number, ip.fragmented, ip.len_source); (WNet::Ip { at: 0, ip }, t, f) }
+    }
+}
 } // verus!
